@@ -249,13 +249,28 @@ def _heavy(model, cat):
 
 
 def eval_roundtrip(case, acc=None, tmpdir=None):
+    out = []
+    try:
+        return _eval_roundtrip(case, out, acc, tmpdir)
+    except (core.HarnessError, M.Invalid):
+        raise
+    except Exception as e:  # noqa: BLE001 - an export / import step of the real context blew up
+        import traceback
+
+        where = [f.name for f in traceback.extract_tb(e.__traceback__) if "passlib" in f.filename or "configparser" in f.filename]
+        if not where:
+            raise core.HarnessError(f"round-trip harness failed: {e!r}") from e
+        out.append((f"C10|roundtrip|{case['route']}:raises:{type(e).__name__}", f"route {case['route']} of CryptContext(**{case['base']!r}) raised {e!r} in {where[-3:]}"))
+        return out
+
+
+def _eval_roundtrip(case, out, acc=None, tmpdir=None):
     from passlib.context import CryptContext
 
     acc = acc if acc is not None else Acc()
     cfg, seed = case["base"], case.get("seed", 0)
     route = case["route"]
     own_tmp = None
-    out = []
     try:
         table = probe_table(cfg, seed)
         ctx, _ = build(cfg)
